@@ -452,14 +452,36 @@ func c15Servers(c *Ctx) {
 			return os.WriteFile(p, gz(append(append(append([]byte(nil), j[:i]...), []byte(`"segments":[`)...), j[i+k:]...)), 0o644)
 		}},
 		{"json-null", func(p string) error { return os.WriteFile(p, gz([]byte("null")), 0o644) }},
+		// a well-formed file that belongs to another representation (of the same asset / of another asset)
+		{"other-rep-same-asset", nil},
+		{"other-rep-other-asset", nil},
 	}
-	nCases := c.N(10, 60)
+	nCases := c.N(11, 66)
 	for i := 0; i < nCases; i++ {
 		dmg := damages[i%len(damages)]
 		f := files[r.Intn(len(files))]
 		dc := filepath.Join(work, fmt.Sprintf("damaged-%d", i))
 		must(copyTree(cache, dc))
-		if err := dmg.do(filepath.Join(dc, f)); err != nil {
+		if dmg.do == nil {
+			var cands []string
+			for _, g := range files {
+				same := filepath.Dir(g) == filepath.Dir(f)
+				if g != f && same == (dmg.name == "other-rep-same-asset") {
+					cands = append(cands, g)
+				}
+			}
+			if len(cands) == 0 {
+				os.RemoveAll(dc)
+				continue
+			}
+			g := cands[r.Intn(len(cands))]
+			b, err := os.ReadFile(filepath.Join(dc, g))
+			if err != nil || os.WriteFile(filepath.Join(dc, f), b, 0o644) != nil {
+				os.RemoveAll(dc)
+				continue
+			}
+			dmg.name += "(" + g + ")"
+		} else if err := dmg.do(filepath.Join(dc, f)); err != nil {
 			continue
 		}
 		tag := fmt.Sprintf("cache %s %s", dmg.name, f)
